@@ -1,0 +1,46 @@
+//go:build verif
+
+// Contracts for guid.go (C12, C07), checked by /verif/cmd/nsqvc. Comment-only file.
+
+package nsqd
+
+// The factory's mutex protects the generator state. Guarantee of every critical section:
+// the last id handed out never goes down.
+//@ lock guidFactory.Mutex guards sequence, lastTimestamp, lastID
+//@   guarantee[monotone] self.lastID >= old(self.lastID)
+
+// Proved from an arbitrary state of the factory and an arbitrary clock value: an id is returned
+// only if it is strictly above every id handed out before (in lock order), and then it becomes
+// the new high-water mark; on error the high-water mark is untouched and no id is returned.
+//@ func (f *guidFactory) NewGUID() (guid, error)
+//@   props C12
+//@   arith bv64
+//@   requires f != nil
+//@   ensures[fresh] result1 == nil ==> result0 == atunlock(f.lastID) && result0 > atlock(f.lastID)
+//@   ensures[no-reuse-on-error] result1 != nil ==> atunlock(f.lastID) == atlock(f.lastID) && result0 == 0
+//@   ensures[layout] result1 == nil ==> 0 <= atunlock(f.sequence) && atunlock(f.sequence) <= 4095
+//@   ensures[layout-id] result1 == nil ==> result0 == guid(((atunlock(f.lastTimestamp) - 1288834974288) << 22) | (f.nodeID << 12) | atunlock(f.sequence))
+
+// Hex: characters 2j and 2j+1 are the lower-case hexadecimal digits of the high and low nibble of
+// byte j (most significant first) of the 64-bit two's complement value of the id, so distinct ids
+// give distinct message ids. fdiv/fmod are floor division and modulus.
+//@ func (g guid) Hex() MessageID
+//@   props C12 C07
+//@   ensures[digit0] result[0] == hexdigit(fdiv(fmod(fdiv(g, 72057594037927936), 256), 16))
+//@   ensures[digit1] result[1] == hexdigit(fmod(fmod(fdiv(g, 72057594037927936), 256), 16))
+//@   ensures[digit2] result[2] == hexdigit(fdiv(fmod(fdiv(g, 281474976710656), 256), 16))
+//@   ensures[digit3] result[3] == hexdigit(fmod(fmod(fdiv(g, 281474976710656), 256), 16))
+//@   ensures[digit4] result[4] == hexdigit(fdiv(fmod(fdiv(g, 1099511627776), 256), 16))
+//@   ensures[digit5] result[5] == hexdigit(fmod(fmod(fdiv(g, 1099511627776), 256), 16))
+//@   ensures[digit6] result[6] == hexdigit(fdiv(fmod(fdiv(g, 4294967296), 256), 16))
+//@   ensures[digit7] result[7] == hexdigit(fmod(fmod(fdiv(g, 4294967296), 256), 16))
+//@   ensures[digit8] result[8] == hexdigit(fdiv(fmod(fdiv(g, 16777216), 256), 16))
+//@   ensures[digit9] result[9] == hexdigit(fmod(fmod(fdiv(g, 16777216), 256), 16))
+//@   ensures[digit10] result[10] == hexdigit(fdiv(fmod(fdiv(g, 65536), 256), 16))
+//@   ensures[digit11] result[11] == hexdigit(fmod(fmod(fdiv(g, 65536), 256), 16))
+//@   ensures[digit12] result[12] == hexdigit(fdiv(fmod(fdiv(g, 256), 256), 16))
+//@   ensures[digit13] result[13] == hexdigit(fmod(fmod(fdiv(g, 256), 256), 16))
+//@   ensures[digit14] result[14] == hexdigit(fdiv(fmod(fdiv(g, 1), 256), 16))
+//@   ensures[digit15] result[15] == hexdigit(fmod(fmod(fdiv(g, 1), 256), 16))
+//@   ensures[hexchars] forall k int :: {result[k]} 0 <= k && k < 16 ==> (48 <= result[k] && result[k] <= 57) || (97 <= result[k] && result[k] <= 102)
+//@   modifies
